@@ -23,6 +23,7 @@ BOUNDS = {'quick': dict(hints='0..2', segments='<= 3 (more are cut)', permutatio
 ASSUMPTIONS = ['bundle length below 2^32 (the 4-octet length hint); frames are not corrupted',
                'portion stand-in semantics for discrete intervals']
 REQUIRED_CLASSES = {'all': ['codec', 'segmented', 'received']}
+SMALL_LIMIT = 2 ** 21          # the 20-bit message length is the boundary of interest
 QUICK_VALIDATE = 3
 MAX_PATHS = {'quick': 20000, 'thorough': 100000}
 
@@ -33,6 +34,7 @@ def cases(tier):
         for nh in (0, 1, 2):
             out.append(dict(kind='codec', msg=kind, hints=nh))
     out.append(dict(kind='send', k=3 if tier == 'quick' else 4))
+    out.append(dict(kind='send', k=3, nomtu=1))          # no MTU configured
     if tier != 'quick':
         out.append(dict(kind='send', k=6))
     for n in ((1, 2, 3) if tier == 'quick' else (1, 2, 3, 4, 5)):
@@ -130,7 +132,7 @@ def h_send(c, case):
     from vf.symio import BytesIO
     K = case['k']
     L = c.sym_int('L', 0, 2 ** 32 - 1, size=True)
-    mtu = c.sym_int('mtu', 1, 2 ** 20, size=True)
+    mtu = None if case.get('nomtu') else c.sym_int('mtu', 1, 2 ** 20, size=True)
     tid = c.sym_int('tid', 0, 2 ** 32 - 1)
     data = c.sym_blob('bundle', L)
     ag = make_agent(mtu)
@@ -146,10 +148,12 @@ def h_send(c, case):
                     return {'class': 'cut'}
                 raise Cut('more than %d frames' % K)
     except (RuntimeError, ValueError, OverflowError) as err:
-        c.prove(mtu <= 40, 'refuses-only-tiny-mtu', detail=dict(mtu=mtu, L=L))
+        c.prove(mtu is not None and mtu <= 40, 'refuses-only-tiny-mtu', detail=dict(mtu=mtu, L=L, err=repr(err)))
         return {'class': 'refused'}
     frames = [rt.b_bytes(f) for f in frames]
     for f in frames:
+        if mtu is None:
+            break
         c.prove(blen(f) <= mtu, 'frame-within-mtu', detail=dict(size=blen(f), mtu=mtu, L=L, n=len(frames)))
     from vf.symstruct import pack_uint, unpack_uint
     from vf.engine import SBuf
